@@ -14,10 +14,12 @@
 (* homogeneity of each relation by exponent-vector arithmetic, alias sets)   *)
 (* and the transition's prediction, and exports one CASE record per case.    *)
 EXTENDS Constants
+CONSTANTS PairAll,         \* TRUE: every ordered pair of pair members (thorough); FALSE: neighbours in the ring of ranks
+          CodeInTable      \* TRUE: the code-unit registries also go through the single-configuration case table (thorough)
 CONSTANT CfgSel           \* "all" | "core": which configurations (quick tier drops nothing unless told to)
 VARIABLE c
 
-NoCase == [kind |-> "init", a |-> 0, g |-> "", cfg |-> 0, route |-> ""]
+NoCase == [kind |-> "init", a |-> 0, g |-> "", cfg |-> 0, route |-> "", cfg2 |-> 0]
 SelCfg == IF CfgSel = "all" THEN CfgIdx ELSE {k \in CfgIdx : Cfgs[k].core}
 AllRoutes == {"raw", "to", "base", "cgsmks", "eq", "ratio", "shown", "tosys", "idem", "defbase"}
 RoutesOf(g) == CASE g = "cgs" -> AllRoutes \ {"defbase"}
@@ -27,16 +29,40 @@ RoutesOf(g) == CASE g = "cgs" -> AllRoutes \ {"defbase"}
 \* plain guise depends on the system (the other guises are covered by the registry configurations)
 GuisesOf(k) == IF Cfgs[k].gensys THEN {"plain"} ELSE Guises
 UnitNames == {n \in NameIdx : Names[n].isunit}
-RelGuises(r) == IF Rels[r].form = "gauss" THEN {"cgs"} ELSE {"plain", "mks"}
+\* mix1 / mix2: the participants of a relation wear alternating guises (k-th term _mks / _cgs, or the reverse)
+RelGuises(r) == IF Rels[r].form = "gauss" THEN {"cgs"} ELSE {"plain", "mks", "mix1", "mix2"}
+RelGuisesOf(k) == IF Cfgs[k].gensys THEN {"plain"} ELSE IF Cfgs[k].genmod THEN Guises ELSE Guises \cup {"mix1", "mix2"}
+\* constant against the unit of the same name: "unit" compares the scales, "quot" / "quotinv" read the quotient
+\* (0.75 X-as-unit) / (X-as-constant) and its inverse as a pure number
+UnitRoutes == {"unit", "quot", "quotinv"}
+\* pairs of configurations (round 7): the members carry a rank > 0; quick tier: neighbours in the ring of ranks, thorough: all
+PairMembers == {k \in SelCfg : Cfgs[k].pair > 0}
+NPair == Cardinality(PairMembers)
+Neighbours(A, B) == LET d == Cfgs[A].pair - Cfgs[B].pair IN d \in {1, -1, NPair - 1, 1 - NPair}
+PairSel == {p \in PairMembers \X PairMembers : p[1] # p[2] /\ (PairAll \/ Neighbours(p[1], p[2]))}
+\* every call form for the primary name of a row, the plain conversion for its aliases
+PairFormsOf(n) == IF Names[n].ai = 0 THEN PairForms ELSE {"to"}
+\* the top-level namespace holds the module's objects (identity is checked by the harness): two routes suffice;
+\* registries with code units (thorough tier only in the case table) go through the routes that read the shown number
+CfgRoutes(k) == CASE Cfgs[k].genmod -> {"raw", "to", "cgsmks", "eq", "shown", "tosys"}
+                  [] Cfgs[k].kind = "top" -> {"raw", "eq"}
+                  [] Cfgs[k].kind = "codereg" -> IF CodeInTable THEN {"raw", "to", "shown", "tosys", "idem"} ELSE {}
+                  [] OTHER -> AllRoutes
 Cases ==
-  {[kind |-> "guise", a |-> n, g |-> g, cfg |-> k, route |-> rt] : n \in NameIdx, g \in Guises, k \in SelCfg, rt \in AllRoutes}
-  \cup {[kind |-> "rel", a |-> r, g |-> g, cfg |-> k, route |-> "rel"] : r \in RelIdx, g \in Guises, k \in SelCfg}
-  \cup {[kind |-> "unit", a |-> n, g |-> "plain", cfg |-> k, route |-> "unit"] : n \in UnitNames, k \in SelCfg}
-  \cup {[kind |-> "lit", a |-> q, g |-> "plain", cfg |-> 1, route |-> "lit"] : q \in QIdx}
+  \* (candidate sets are kept small: the routes and guises a configuration goes through are selected before the records are built)
+  UNION {{[kind |-> "guise", a |-> n, g |-> gk[1], cfg |-> gk[2], route |-> rt, cfg2 |-> 0] : n \in NameIdx, rt \in RoutesOf(gk[1]) \cap CfgRoutes(gk[2])}
+         : gk \in {x \in Guises \X SelCfg : x[1] \in GuisesOf(x[2])}}
+  \cup {[kind |-> "rel", a |-> r, g |-> g, cfg |-> k, route |-> "rel", cfg2 |-> 0] : r \in RelIdx, g \in Guises \cup {"mix1", "mix2"}, k \in SelCfg}
+  \cup {[kind |-> "unit", a |-> n, g |-> "plain", cfg |-> k, route |-> "unit", cfg2 |-> 0] : n \in UnitNames, k \in SelCfg}
+  \cup {[kind |-> "unit", a |-> n, g |-> g, cfg |-> k, route |-> rt, cfg2 |-> 0] : n \in UnitNames, g \in Guises, k \in {x \in SelCfg : ~Cfgs[x].genmod}, rt \in {"quot", "quotinv"}}
+  \cup {[kind |-> "pair", a |-> n, g |-> "plain", cfg |-> p[1], route |-> f, cfg2 |-> p[2]] : n \in NameIdx, p \in PairSel, f \in PairForms}
+  \cup {[kind |-> "lit", a |-> q, g |-> "plain", cfg |-> 1, route |-> "lit", cfg2 |-> 0] : q \in QIdx}
 \* the TLC-generated edited registries (thorough tier) are compared through a representative subset of the routes
-CfgRoutes(k) == IF Cfgs[k].genmod THEN {"raw", "to", "cgsmks", "eq", "shown", "tosys"} ELSE AllRoutes
 Wanted(k) == CASE k.kind = "guise" -> k.route \in RoutesOf(k.g) \cap CfgRoutes(k.cfg) /\ (Bare(k.a) => (k.g = "plain" /\ k.route # "defbase")) /\ k.g \in GuisesOf(k.cfg)
-               [] k.kind = "rel" -> k.g \in RelGuises(k.a) /\ k.g \in GuisesOf(k.cfg)
+               [] k.kind = "rel" -> k.g \in RelGuises(k.a) /\ k.g \in RelGuisesOf(k.cfg) /\ Cfgs[k.cfg].kind # "codereg"
+               [] k.kind = "unit" -> /\ Cfgs[k.cfg].kind # "codereg" /\ (k.route = "unit" => k.g = "plain")
+                                     /\ (k.g # "plain" => (~Cfgs[k.cfg].gensys /\ Unmodified(k.cfg)))
+               [] k.kind = "pair" -> k.route \in PairFormsOf(k.a) /\ ~Bare(k.a)
                [] OTHER -> TRUE
 
 Init == c = NoCase
@@ -47,7 +73,7 @@ Spec == Init /\ [][Next]_c
 Model(k) == IF k.kind # "guise" THEN [present |-> TRUE, l2 |-> 0, gauss |-> FALSE]
             ELSE LET ci == RowOf(k.a) cur == Cfgs[k.cfg].cur IN
                  [present |-> ExpPresent(ci, k.g), l2 |-> ExpL2(ci, k.cfg), gauss |-> ExpDim(ci, k.g, cur) # RowDim(ci)]
-Export == c # NoCase => PrintT(ToJson([tag |-> "CASE", kind |-> c.kind, a |-> c.a, g |-> c.g, cfg |-> c.cfg, route |-> c.route, m |-> Model(c)]))
+Export == c # NoCase => PrintT(ToJson([tag |-> "CASE", kind |-> c.kind, a |-> c.a, g |-> c.g, cfg |-> c.cfg, route |-> c.route, cfg2 |-> c.cfg2, m |-> Model(c)]))
 
 TFail(clause, a) == PrintT(ToJson([tag |-> "TABLE-FAIL", clause |-> clause, a |-> a]))
 \* table-level clauses, decided here (no observation needed)
